@@ -21,7 +21,7 @@ ANCHORS = ['pycaption.base:Caption.__init__', 'pycaption.base:CaptionSet.__init_
            'pycaption.sami:SAMIReader._translate_lang']
 REQUIRE = {'reads': 300, 'reads_on_reused_reader': 80, 'edits': 80, 'writes_between_reads': 30,
            'results_compared_with_pristine_child': 300, 'results_rechecked_at_end': 200, 'child_processes': 10,
-           'reads_scc_reused': 10, 'reads_microdvd_reused': 5, 'reads_sami_multi_language': 10, 'add_style_then_later_read': 10}
+           'reads_scc_reused': 10, 'reads_microdvd_reused': 5, 'reads_of_ill_formed_documents_that_raised': 20, 'reads_sami_multi_language': 10, 'add_style_then_later_read': 10}
 SHARDS = {'quick': 8, 'thorough': 16}
 TIME_LIMIT = {'quick': 1200, 'thorough': 5400}
 FORMATS = ['srt', 'webvtt', 'dfxp', 'sami', 'microdvd', 'scc']
@@ -40,6 +40,8 @@ def gen_doc(rng, tag, ctx):
             kw['lang'] = 'fr'
         if rng.random() < 0.2:
             kw['simulate_roll_up'] = True
+        if rng.random() < 0.25:
+            kw['offset'] = rng.choice([1, 2, 30])
         return {'format': 'scc', 'doc': sccprog.scc_doc(lines), 'reader_kwargs': {}, 'read_kwargs': kw, 'nlang': 1}
     if fmt == 'sami' and rng.random() < 0.6:
         d = docs.generate('sami', rng, tag, ctx, text=inline.rich_lines, nlang=rng.choice([2, 3, 4]))
@@ -51,6 +53,48 @@ def gen_doc(rng, tag, ctx):
             'nlang': len(d['expected'])}
 
 
+def break_doc(rng, d):
+    """An ill-formed variant of a generated document: the reader must raise - and a later read on the same
+    reader object must not be affected by the half-finished one."""
+    import re
+    doc = d['doc']
+    fmt = d['format']
+    out = None
+    if fmt == 'scc':
+        # a line whose timecode is cut short, sent while a caption may still be on screen
+        out = doc.rstrip('\n') + '\n\n00:00\t942f 942f\n'
+    elif fmt == 'dfxp':
+        k = [m.start() for m in re.finditer(r' begin="', doc)]
+        if k:
+            i = rng.choice(k)
+            out = doc[:i] + ' bogus="' + doc[i + 8:]
+    elif fmt == 'webvtt':
+        m = list(re.finditer(r'(?m)^(\S+)( +--> )', doc))
+        if m:
+            x = rng.choice(m)
+            out = doc[:x.start(1)] + 'bad' + doc[x.end(1):]
+    elif fmt == 'microdvd':
+        lines = doc.split('\n')
+        lines.insert(rng.randrange(1, len(lines) + 1), 'this is not a MicroDVD line')
+        out = '\n'.join(lines)
+    elif fmt == 'srt':
+        m = list(re.finditer(r'(\d\d):(\d\d),(\d\d\d) -->', doc))
+        if m:
+            x = rng.choice(m)
+            out = doc[:x.start(2)] + 'xx' + doc[x.end(2):]
+    elif fmt == 'sami':
+        m = list(re.finditer(r'(?i)<sync start="?\d+"?>', doc))
+        if m:
+            x = rng.choice(m)
+            out = doc[:x.start()] + doc[x.start():x.start() + 5] + '>' + doc[x.end():]
+    if out is None:
+        return None
+    b = dict(d)
+    b['doc'] = out
+    b['broken'] = True
+    return b
+
+
 def cases(ctx):
     rng = ctx.rng('c10')
     for i in range(ctx.budget(160, 5000)):
@@ -60,8 +104,9 @@ def cases(ctx):
             # one reader object, several SCC documents: decoder state must not survive a read
             ds = []
             for k in range(ndocs):
-                lines, _ = sccprog.encode_popon(sccprog.gen_popon(rng, ncaps=rng.choice([1, 2])))
-                ds.append({'format': 'scc', 'doc': sccprog.scc_doc(lines), 'reader_kwargs': {}, 'read_kwargs': {},
+                lines, _ = sccprog.encode_popon(sccprog.gen_popon(rng, ncaps=rng.choice([1, 2])), start_frame=1200)
+                ds.append({'format': 'scc', 'doc': sccprog.scc_doc(lines), 'reader_kwargs': {},
+                           'read_kwargs': {'offset': rng.choice([1, 5, 30])} if rng.random() < 0.3 else {},
                            'nlang': 1})
         reuse_p = 0.6
         if i % 4 == 1:
@@ -83,6 +128,11 @@ def cases(ctx):
             if extra['format'] == f0 and extra['reader_kwargs'] == ds[0]['reader_kwargs']:
                 ds.append(extra)
                 break
+        if rng.random() < 0.35:
+            # an ill-formed variant of one of the documents joins the history
+            b = break_doc(rng, rng.choice(ds))
+            if b is not None:
+                ds.append(b)
         ops = []
         for _ in range(rng.randrange(5, 13)):
             r = rng.random()
@@ -164,6 +214,8 @@ def check(case, ctx):
                 results.append([op['doc'], cs, ('ok', dump.caption_set(cs)), False, k])
             except Exception as e:
                 results.append([op['doc'], None, ('err', type(e).__name__), False, k])
+                if d.get('broken'):
+                    ctx.count('reads_of_ill_formed_documents_that_raised')
         else:
             live = [r for r in results if r[1] is not None]
             if not live:
